@@ -43,10 +43,15 @@ static bool area_del(struct umem_count_mgr *m, uint8_t *base)
     return false;
 }
 
+/* engine/faultmalloc.c, when the executor is built with allocation fault injection: the memory areas handed out here count as
+ * allocations of the code under test like its own malloc calls */
+extern int vp_fault_tick(void) __attribute__((weak));
+
 static bool umem_count_alloc(struct umem_mgr *mgr, struct umem *umem, size_t size)
 {
     struct umem_count_mgr *m = umem_count_mgr_from_umem_mgr(mgr);
     if (m->fail_in && --m->fail_in == 0) { m->failures++; return false; }
+    if (vp_fault_tick && vp_fault_tick()) { m->failures++; return false; }
     uint8_t *buffer = malloc(size ? size : 1);
     if (buffer == NULL) return false;
     memset(buffer, 0xCD, size);
@@ -63,6 +68,7 @@ static bool umem_count_realloc(struct umem *umem, size_t new_size)
 {
     struct umem_count_mgr *m = umem_count_mgr_from_umem_mgr(umem->mgr);
     if (m->fail_in && --m->fail_in == 0) { m->failures++; return false; }
+    if (vp_fault_tick && vp_fault_tick()) { m->failures++; return false; }
     /* always move, so that stale pointers into the old area fault under ASan */
     uint8_t *buffer = malloc(new_size ? new_size : 1);
     if (buffer == NULL) return false;
